@@ -28,10 +28,28 @@ def norm(s):
 
 
 def table_literals(init):
+    """self.<T> = {literal}; also the derived form  self.<T> = dict(self.<U>) [; self.<T>.update({literal})]  - the entries of U plus the
+    update literal (each entry is judged where it is written)"""
     out = {}
+    derived = {}
     for n in walk_local(init):
         if isinstance(n, ast.Assign) and is_self_attr(n.targets[0]) and isinstance(n.value, ast.Dict):
             out[n.targets[0].attr] = n
+        elif isinstance(n, ast.Assign) and is_self_attr(n.targets[0]) and isinstance(n.value, ast.Call) and (call_name(n.value) in ('dict', 'copy.copy') or U(n.value.func).endswith('.copy')):
+            base = n.value.args[0] if n.value.args else (n.value.func.value if isinstance(n.value.func, ast.Attribute) else None)
+            if is_self_attr(base) and not n.value.keywords:
+                derived[n.targets[0].attr] = (n, base.attr, [])
+        elif isinstance(n, ast.Expr) and isinstance(n.value, ast.Call) and isinstance(n.value.func, ast.Attribute) and n.value.func.attr == 'update' \
+                and is_self_attr(n.value.func.value) and n.value.func.value.attr in derived and len(n.value.args) == 1 and isinstance(n.value.args[0], ast.Dict):
+            derived[n.value.func.value.attr][2].append(n.value.args[0])
+    for name, (n, base, ups) in derived.items():
+        if base in out and name not in out:
+            d = ast.Dict(keys=list(out[base].value.keys), values=list(out[base].value.values))
+            for u in ups:
+                d.keys += u.keys
+                d.values += u.values
+            new = ast.Assign(targets=n.targets, value=ast.copy_location(d, n))
+            out[name] = ast.copy_location(new, n)
     return out
 
 
@@ -85,7 +103,7 @@ def run(ctx):
             key = 'CryptographyEngine.%s|%s' % (tname, member)
             if isinstance(v, ast.Tuple) and len(v.elts) == 2:
                 # (hash, algorithm) for <HASH>_WITH_<ALG>_ENCRYPTION
-                m_ = re.match(r'^([A-Z0-9]+)_WITH_([A-Z0-9]+)_ENCRYPTION$', member)
+                m_ = re.match(r'^([A-Z0-9_]+?)_WITH_([A-Z0-9]+)_ENCRYPTION$', member)
                 h = dotted(v.elts[0]) or ''
                 a = enum_member(v.elts[1])
                 ok = bool(m_) and norm(h.split('.')[-1]) == norm(m_.group(1)) and a is not None and a[0] == 'CryptographicAlgorithm' and a[1] == m_.group(2)
@@ -454,7 +472,11 @@ def run(ctx):
             upper = True
         elif isinstance(a, ast.Name) and a.id == X:
             sl = [x for x in dg2.nodes if x.kind == 'stmt' and isinstance(x.stmt, ast.Assign) and isinstance(x.stmt.targets[0], ast.Name) and x.stmt.targets[0].id == X
-                  and isinstance(x.stmt.value, ast.Subscript) and isinstance(x.stmt.value.slice, ast.Slice) and U(x.stmt.value.value) == X and x.stmt.value.slice.upper is not None and U(x.stmt.value.slice.upper) == LV]
+                  and isinstance(x.stmt.value, ast.Subscript) and isinstance(x.stmt.value.slice, ast.Slice) and U(x.stmt.value.value) == X and x.stmt.value.slice.upper is not None and U(x.stmt.value.slice.upper) == LV
+                  and x.stmt.value.slice.lower is None and x.stmt.value.slice.step is None]
+            # unconditional truncation: every path from the derivation to the constructor passes X = X[:L]  (a no-op when len(X) <= L)
+            if sl and all(dg2.all_paths_pass(mm, n, sl) for mm, l in dn.succ if l != 'exc'):
+                upper = True
             for tt in [x for x in dg2.nodes if x.kind == 'test' and is_len_cmp(x.stmt, True)]:
                 if dg2.dominates(tt, n) and sl:
                     tsucc = [mm for mm, l in tt.succ if l == 'T']
